@@ -353,6 +353,59 @@ def run(ctx, rep):
                           'the second table write fails, a chain points at a cluster that is still free (and still the next '
                           'allocation candidate), so two files end up sharing it')
 
+    # ---------------- R3.11 the first cluster of a file is recorded before the next fallible device operation
+    FW = facts.fns.get('<fatfs::file::File as fatfs::io::Write>::write')
+    if FW is None:
+        rep.machinery('ANCHOR-MISSING <File as Write>::write')
+    else:
+        from analyses import contains_dev_result
+        dfw = Deps(FW)
+        allocs = [(b, t) for b, t in FW.calls() if (t.get('callee') or '').endswith('FileSystem::alloc_cluster')]
+        pubs = {b for b, t in FW.calls() if (t.get('callee') or '').endswith('::set_first_cluster')}
+        for bi in FW.reachable():
+            for s_ in FW.blocks[bi]['stmts']:
+                if s_['k'] == 'assign' and s_['lhs']['p'] and [e.get('n') for e in s_['lhs']['p'] if 'f' in e][-1:] == ['first_cluster']:
+                    pubs.add(bi)
+        devcalls = {b for b, t in FW.calls() if t.get('ret') is not None and b not in {a for a, _ in allocs} and
+                    contains_dev_result(FW.types, t['dest_ty']) and eff.fn_reaches_dev(FW.name, b)}
+        ok11 = bool(allocs) and bool(pubs)
+        why11 = ''
+        for ab, at in allocs:
+            region = FW.reach_from([at['ret']], cut_blocks=devcalls)
+            good = False
+            # unconditional: nothing fallible is reachable without passing the store
+            if not (set(FW.reach_from([at['ret']], cut_blocks=pubs)) & devcalls):
+                good = True
+            for bi in region:
+                t = FW.blocks[bi]['term']
+                if t['k'] != 'switch' or good:
+                    continue
+                src = switch_source(FW, bi)
+                none_arms = None
+                if src and src['kind'] == 'call' and (src.get('callee') or '').endswith(('Option::is_none', 'Option::is_some')):
+                    tk = set()
+                    for a in src['term']['args']:
+                        tk |= dfw.of_operand(a)
+                    if ('field', 'first_cluster') in tk:
+                        none_arms = nonzero_targets(t) if src['callee'].endswith('is_none') else zero_targets(t)
+                elif src and src['kind'] == 'discr' and any(e.get('n') == 'first_cluster' for e in src['place']['p'] if 'f' in e):
+                    none_arms = [tb for v, tb in t['targets'] if v == 0]
+                if none_arms:
+                    after = set(FW.reach_from(list(none_arms), cut_blocks=pubs))
+                    if not (after & devcalls) and (set(FW.reach_from(list(none_arms))) & pubs):
+                        good = True
+            if not good:
+                ok11 = False
+                why11 = ('after a cluster has been allocated for a file that has none, a fallible device operation can run before '
+                         'the cluster is recorded as the file\'s first cluster: if it fails, the cluster stays allocated but '
+                         'belongs to no file (remove / truncate / close never release it)')
+        rep.oblige('R3.11', FW.name, ok=ok11, nontrivial=True,
+                   sample={'fn': FW.name, 'alloc_sites': len(allocs), 'publish_sites': len(pubs), 'fallible_device_calls': len(devcalls)})
+        if not allocs or not pubs:
+            rep.machinery('ANCHOR File::write: alloc_cluster / set_first_cluster sites not found')
+        elif not ok11:
+            rep.violation('R3.11', vkey('R3.11', FW.name, 'publish-first-cluster', ''), FW.loc(FW.span), why11)
+
     # ---------------- R3.8 truncate order
     CT = facts.fns.get('fatfs::table::ClusterIterator::truncate')
     if CT is None:
